@@ -15,6 +15,12 @@ Independent specification of C09, written from the property text (it shares only
   decorated* — through the sub class or through one of its instances, instance methods, class methods, static methods and
   properties alike, whether the sub class is used for the first time before or after the variable changes.
 
+* "return the very object they were given" does not depend on what the object is: switched off, ANY object handed to any of the
+  decorators comes back as it is — a function without source text, a builtin, a `functools.partial`, an instance with
+  `__call__`, a lambda, a function with a wrong docstring, a class handed to a function decorator, a function handed to a class
+  decorator, an `Enum`, a dataclass — and nothing is imposed (no check: in particular the decoration cannot raise).  What the
+  decorators do to such an object when switched ON is not the subject of this property (`unclaimed`).
+
 Other values of the variable are not claimed (`unclaimed`).
 -/
 namespace PedVerif.Switch
@@ -77,13 +83,13 @@ def spush (s : SSt) (h : SHandle) : SSt := { s with handles := s.handles ++ [h] 
 
 /-- the decorator is applied now: only the present value of the variable matters -/
 def specDecorate (s : SSt) (d : Deco) (t : Target) : SSt × SObs :=
-  if d.onClass != t.isClass then (spush s .dead, .exact .bad)
-  else match claim s.env with
-    | none => (spush s .unclaimed, .unclaimed)
-    | some false => (spush s .identity, .exact (.decorated true true))
-    | some true =>
-      if d.requiresDoc && !t.hasDoc then (spush s .dead, .exact .decoRaised)
-      else (spush s (.active d.effect), .enabledDeco)
+  match claim s.env with
+  | none => (spush s .unclaimed, .unclaimed)
+  | some false => (spush s .identity, .exact (.decorated true true))          -- whatever the object is
+  | some true =>
+    if t.odd || d.onClass != t.isClass then (spush s .unclaimed, .unclaimed)   -- not an object the decorator is made for
+    else if d.requiresDoc && !t.hasDoc then (spush s .dead, .exact .decoRaised)
+    else (spush s (.active d.effect), .enabledDeco)
 
 def specApply (s : SSt) (k : Nat) (t : Target) : SSt × SObs :=
   match s.factories[k]? with
@@ -144,7 +150,7 @@ def specStep (s : SSt) : Op → SSt × SObs
     -- a sub class inherits what was decided for its base; a function, or a decoration that produced nothing, has no sub class
     match s.handles[h]?, s.targets[h]? with
     | some hd, some (some t) =>
-      if t.isClass then
+      if t.isClass && !t.odd then
         srecord (some t) (match hd with
           | .dead => (spush s .dead, .exact .bad)
           | .unclaimed => (spush s .unclaimed, .unclaimed)
